@@ -40,6 +40,7 @@ def alphabet(ut=True, scalars=True):
             yield_(V(Y)),
             yield_(V("w"), comp="y", tid="aux"),
             assign("b", CALL("<builtin>norm_2", [V("w")])),
+            assign("w", S(V("w"), P(V("i"), V("k"))), loops=[["i", C(0), C(3)]]),      # user-type update in a loop
         ]
     if scalars:
         a += [
@@ -66,6 +67,9 @@ def alphabet(ut=True, scalars=True):
         if_(CMP(">", V(N), C(2))),
         if_(CMP("<", V(M), C(1))),
         if_(CMP("==", V(N), C(1))),
+        if_(["and", [CMP(">", V(N), C(2)), ["or", [CMP("<", V(M), C(1)), CMP("==", V(N), C(1))]]]]),
+        if_(["or", [["and", [CMP("<", V(N), C(2)), CMP(">", V(M), C(1))]], CMP(">=", V(N), C(3))]]),
+        if_(["not", ["or", [CMP("<", V(N), C(1)), CMP(">", V(M), C(1))]]]),
         {"op": "fail"},
         {"op": "switch", "to": "p1"},
     ]
@@ -114,3 +118,29 @@ def func_h2(x, y):
 
 
 FUNCS = {"<func>rhs": func_rhs, "<func>h2": func_h2}
+
+
+def core_shapes():
+    """Hand-shaped programs that every Fortran check includes besides the generated ones: the move / overwrite /
+    early-exit / guard / loop patterns the properties name."""
+    a = alphabet()
+    k, w, w2mv, ymv, ymv2, kw_, wk, wupd, yupd, yld, yldw, nrm, wloop = a[:13]
+    n_gt2 = if_(CMP(">", V(N), C(2)))
+    m_lt1 = if_(CMP("<", V(M), C(1)))
+    n_eq1 = if_(CMP("==", V(N), C(1)))
+    E, F_, SW = {"op": "endif"}, {"op": "fail"}, {"op": "switch", "to": "p1"}
+    ninc = assign(N, S(V(N), C(1)))
+    return [
+        [k, w, n_gt2, F_, E, ymv, yld],                                    # early exit before the last use
+        [k, w, m_lt1, ymv, E, ninc],                                       # last use inside a guard
+        [k, w, wloop, ymv, yld],                                           # last use inside a loop
+        [k, w, w2mv, wupd, ymv2, yld],                                     # move, then copy-on-write
+        [k, w, ymv, kw_, wk, yupd],                                        # moved into state, then overwritten
+        [k, w, yldw, n_eq1, F_, E, ymv],                                   # yield of a temporary, then a failure
+        [k, w, m_lt1, SW, E, ymv, ninc],                                   # switch before a last use
+        [n_gt2, k, w, E, {"op": "else"}, k, {"op": "endelse"}, ninc],      # assigned in a guard
+        [k, w, ymv, yld, ninc, n_gt2, SW, E],
+        [k, n_gt2, w, E, {"op": "else"}, assign("w", S(V(Y), P(C(2), V("k")))), {"op": "endelse"}, ymv, ninc],   # written in both branches
+        [k, m_lt1, w, E, assign("w", S(V(Y), P(C(3), V("k")))), ymv, ninc],                                      # written in a guard, again after it
+        [n_eq1, k, E, kw_ if False else acall(["k"], "<func>rhs", [V("<t>"), V(Y)]), w, ymv],
+    ] + [[g, assign(M, S(V(M), C(5))), E, ninc] for g in a if g["op"] == "if"]      # every guard form of the profile
